@@ -5,7 +5,7 @@
 // SetScript / SetRuneCacheSize / ResolveFace / ResolveFaceForLang; after every lookup the answer
 // is compared with (a) totality, (b) the answer of a fresh FontMap that only saw the Add* calls
 // and the current query/script, rune cache disabled, and (c) an independent model of the
-// documented four-step priority (model.go).
+// documented four-step priority (model_test.go).
 package c14
 
 import (
@@ -312,7 +312,7 @@ func parseScript(tag string) language.Script {
 type machine struct {
 	fm  *fontscan.FontMap
 	ops []op
-	db  []entry // model of the database, in insertion order (model.go)
+	db  []entry // model of the database, in insertion order (model_test.go)
 
 	adds      []op // the Add* steps, for the fresh replay
 	querySet  bool
